@@ -4,10 +4,10 @@ package main
 // hooks), log one event per protocol point / API return, for validation by specs/Trace_Reader.tla.
 
 import (
-	"math"
 	"encoding/json"
 	"flag"
 	"fmt"
+	"math"
 	"math/rand"
 	"os"
 	"sort"
@@ -170,7 +170,7 @@ func execReaderRun(run *readerRun, stream []byte, expected []byte, inject func(p
 		buf := make([]byte, n)
 		var m int
 		var err error
-		if !guard(func() { m, err = r.Read(buf) }) {
+		if !guardBytes(len(stream)+len(expected), func() { m, err = r.Read(buf) }) {
 			flush()
 			evs = append(evs, tr.Ev{"ev": "Hang", "op": "Read", "len": n})
 			return evs
